@@ -44,7 +44,7 @@ def gen_doc(rng, path):
     keyword = rng.choice([None, None, "t", "volume"])
     for g in ["k", "k2", "q", "w"] + ([keyword] if keyword else []):
         p = m.createParameter(); p.setId(g); p.setConstant(g not in ("q", "w"))
-        v = rng.choice([0.5, 1.0, 2.0, 3.0]) if g not in ("t", "volume") else rng.choice([2.0, 3.0])
+        v = rng.choice([0.5, 1.0, 2.0, 3.0, 0.0]) if g not in ("t", "volume") else rng.choice([2.0, 3.0])      # (0: switched off)
         p.setValue(v)
         desc["globals"][g] = v
     nrx = rng.randint(1, 4)
